@@ -152,7 +152,8 @@ def ir_nodes(ir, acc):
 # arbitrary well-formed lists, built with sympy in the worker from a seed
 # --------------------------------------------------------------------------
 FAMILIES = [("nary", 18), ("ite_imp", 12), ("shared", 20), ("fwd_ret", 6), ("near_or2xor", 16),
-            ("near_obvious", 12), ("near_or2and", 10), ("consts", 6)]
+            ("near_obvious", 12), ("near_or2and", 10), ("consts", 6), ("big_reassign", 2), ("xor_twins", 8),
+            ("imp_shapes", 6)]
 INPUT_NAMES = ["a", "b", "c", "d", "e", "f", "g", "h", "i", "j", "k", "l"]
 MID_NAMES = ["t0", "t1", "t2", "v", "w", "tmp", "x0", "x1", "x2", "__q"]
 
@@ -215,6 +216,41 @@ def build_list(family, lseed):
         if w == "imp":
             return Implies(o(), core) if rng.random() < 0.5 else Implies(core, o())
         return core
+
+    if family == "big_reassign":
+        # a name assigned a small value, read, then re-assigned a LARGE expression that is read twice
+        ins = INPUT_NAMES[:rng.randint(5, 8)]
+        t, u = S(rng.choice(["t0", "v", "w"])), S("u9")
+        big = Xor(*[And(S(rng.choice(ins)), lit(ins), lit(ins)) for _ in range(rng.randint(14, 17))])
+        first = rng.choice([S(ins[0]), And(S(ins[0]), S(ins[1])), Not(S(ins[2]))])
+        return ins, [(t, first), (u, And(t, S(ins[1]))), (t, big),
+                     (S("_ret.0"), And(t, Not(S(ins[0])))), (S("_ret.1"), Xor(t, u)), (S("_ret.2"), Or(t, S(ins[3])))]
+
+    if family == "xor_twins":
+        # a Xor whose operands are syntactically different but become equal after a rewrite step
+        a, b, c, d = (S(x) for x in rng.sample(ins if len(ins) >= 4 else INPUT_NAMES[:4], 4))
+        ins = sorted(set(ins) | {x.name for x in (a, b, c, d)}, key=INPUT_NAMES.index)
+        twins = rng.choice([
+            (ITE(c, a, b), Or(And(c, a), And(Not(c), b))),
+            (Implies(a, b), Or(Not(a), b)),
+            (Or(a, b, c), Not(And(Not(a), Not(b), Not(c)))),
+            (Or(And(a, b), And(Not(a), Not(b))), Not(Xor(a, b))),
+            (Not(Not(And(a, b))), And(a, b)),
+            (ITE(a, Not(b), b), Xor(a, b)),
+        ])
+        core = Xor(d, twins[0], twins[1]) if rng.random() < 0.7 else Xor(twins[0], twins[1], And(d, c))
+        k = rng.choice([1, 2])
+        rets = ret_names(k)
+        return ins, [(S(rets[0]), wrap(core, ins))] + [(S(r), rexpr(ins, 2, BASIC)) for r in rets[1:]]
+
+    if family == "imp_shapes":
+        # implications with compound antecedents / consequents, also below a Xor
+        def ante():
+            return rng.choice([Or, And, Xor])(*[lit(ins) for _ in range(rng.choice([2, 3]))])
+        core = Implies(ante(), rexpr(ins, 1, BASIC)) if rng.random() < 0.6 else Implies(rexpr(ins, 1, BASIC), ante())
+        if rng.random() < 0.6:
+            core = Xor(core, lit(ins), rexpr(ins, 1, BASIC))
+        return ins, [(S("_ret"), core)]
 
     if family == "nary":
         k = rng.choice([1, 1, 2, 3])
